@@ -11,6 +11,8 @@ import (
 	"strconv"
 	"strings"
 	"time"
+
+	"github.com/MichaelMure/git-bug/zzverif/verifrt"
 )
 
 // VerifDir is where known findings are read and evidence and replay files are written; sweeps
@@ -149,6 +151,9 @@ func RunShard(prop, tier string, seed uint64, shard, nshards int, out string) {
 	}
 	sort.Strings(rep.NTHashes)
 	rep.AllHashes = len(all)
+	if n := verifrt.QuiesceTimeouts.Load(); n > 0 {
+		rep.Probes["goroutines_still_running_when_panics_were_collected"] += int(n)
+	}
 	rep.WallS = time.Since(start).Seconds()
 	b, _ := json.Marshal(rep)
 	if err := os.WriteFile(out, b, 0o644); err != nil {
